@@ -474,6 +474,20 @@ impl<Writer: Write> Mp4Writer<Writer> {
         }
     }
 
+    /// True if the sum of the sample durations (as the sample tables will carry them) fits 32 bits.
+    fn total_duration_fits(samples: &[SampleInfo], last_delta: Option<u32>) -> bool {
+        let mut total: u64 = 0;
+        for (idx, sample) in samples.iter().enumerate() {
+            let duration = match sample.duration {
+                Some(d) => d,
+                None if idx + 1 == samples.len() => last_delta.unwrap_or(1),
+                None => 1,
+            };
+            total = total.saturating_add(u64::from(duration));
+        }
+        total <= u64::from(u32::MAX)
+    }
+
     fn write_counted(writer: &mut Writer, bytes_written: &mut u64, buf: &[u8]) -> io::Result<()> {
         *bytes_written = bytes_written.saturating_add(buf.len() as u64);
         writer.write_all(buf)
@@ -655,6 +669,17 @@ impl<Writer: Write> Mp4Writer<Writer> {
             return Err(io::Error::other("mp4 writer already finalised"));
         }
         self.finalized = true;
+
+        // The mdhd/mvhd duration fields are 32 bits wide (version 0 boxes). Refuse a recording
+        // whose summed sample durations do not fit instead of writing wrapped durations.
+        if !Self::total_duration_fits(&self.video_samples, self.video_last_delta)
+            || !Self::total_duration_fits(&self.audio_samples, self.audio_last_delta)
+        {
+            return Err(io::Error::new(
+                io::ErrorKind::InvalidData,
+                "MP4 track duration exceeds u32::MAX ticks",
+            ));
+        }
 
         let video_config = self
             .video_config
